@@ -16,7 +16,7 @@
 (***************************************************************************)
 EXTENDS DtlsHandshake, Json
 
-CONSTANTS NetKinds,     \* subset of {"drop","dup","hold1","hold2","split2","split3"}
+CONSTANTS NetKinds,     \* subset of {"drop","dup","hold1","hold2","split2","split3","splitov"}
           NetBudget,    \* number of network faults per behaviour
           AdvKinds,     \* subset of the adversary operations below
           AdvBudget,
@@ -176,6 +176,13 @@ ProxyStep ==
                       /\ held' = [held EXCEPT ![d] = Append(@, [k |-> k, m |-> fwd])]
                       /\ ops' = Append(ops, OpRec(d, lab, o, "hold", k))
                    /\ outbox' = Tail(outbox) /\ UNCHANGED net
+                \/ /\ kind = "splitov"              \* two overlapping fragments: [0, 2/3) and [1/3, 1)
+                   /\ Plain(m.t) /\ m.nfrag = 1 /\ m.t # "SHD" /\ m.t # "CR"
+                   /\ LET fr == <<[m EXCEPT !.frag = 1, !.nfrag = 2, !.lo = 0, !.hi = 4],
+                                   [m EXCEPT !.frag = 2, !.nfrag = 2, !.lo = 2, !.hi = Units]>> IN
+                      /\ outbox' = [i \in 1..2 |-> [dir |-> d, m |-> fr[i]]] \o Tail(outbox)
+                      /\ ops' = Append(ops, OpRec(d, lab, o, "split", 20))
+                   /\ UNCHANGED <<net, held>>
                 \/ /\ kind \in {"split2", "split3"}
                    /\ Plain(m.t) /\ m.nfrag = 1 /\ m.t # "SHD" /\ m.t # "CR"     \* needs a body to cut
                    /\ LET n == IF kind = "split2" THEN 2 ELSE 3
